@@ -116,42 +116,75 @@ fn parse_assignment(input: &str) -> Result<Node, CompilerError> {
         });
     }
 
-    // Check for a standalone function call (no '=' in the statement, but has '()')
-    // e.g. `~ derp(2, 3, 4)` or `~ merchant_init()`
-    if !input.contains('=')
-        && let Ok(Some((name, args))) = parse_call_like(input)
-    {
-        return Ok(Node::VoidCall { name, args });
-    }
+    // The assignment operator is looked for at the top level only: an `=` inside the
+    // parentheses of a call (`~ show(x == 1)`) or inside a string literal
+    // (`~ show("a=b")`, `~ s = "a+=b"`) does not make the statement an assignment.
+    let Some((position, operator)) = find_assignment_operator(input) else {
+        // A standalone function call, e.g. `~ derp(2, 3, 4)` or `~ merchant_init()`
+        if let Some((name, args)) = parse_call_like(input)? {
+            return Ok(Node::VoidCall { name, args });
+        }
+        return Err(CompilerError::invalid_source(
+            "expected assignment using '='".to_owned(),
+        ));
+    };
 
-    if input.contains("+=") {
-        let (name, expression) = split_assignment(input, "+=")?;
-        return Ok(Node::Assignment {
-            variable_name: name,
-            expression: parse_expression(&expression)?,
-            mode: AssignMode::AddAssign,
-        });
-    }
-
-    if input.contains("-=") {
-        let (name, expression) = split_assignment(input, "-=")?;
-        return Ok(Node::Assignment {
-            variable_name: name,
-            expression: parse_expression(&expression)?,
-            mode: AssignMode::SubtractAssign,
-        });
-    }
-
-    let (name, expression) = split_assignment(input, "=")?;
     Ok(Node::Assignment {
-        variable_name: name,
-        expression: parse_expression(&expression)?,
-        mode: if is_temp {
-            AssignMode::TempSet
-        } else {
-            AssignMode::Set
+        variable_name: input[..position].trim().to_owned(),
+        expression: parse_expression(input[position + operator.len()..].trim())?,
+        mode: match operator {
+            "+=" => AssignMode::AddAssign,
+            "-=" => AssignMode::SubtractAssign,
+            _ if is_temp => AssignMode::TempSet,
+            _ => AssignMode::Set,
         },
     })
+}
+
+/// Where the first `=`, `+=` or `-=` of a `~` statement is, and which of them it is.
+/// Only an `=` outside parentheses and string literals counts, and not the one in `==`,
+/// `!=`, `<=` or `>=`.
+fn find_assignment_operator(input: &str) -> Option<(usize, &'static str)> {
+    let bytes = input.as_bytes();
+    let mut paren_depth = 0usize;
+    let mut in_string = false;
+    // `{…}` inside a string literal holds an expression, which may hold a string again
+    let mut string_brace_depth = 0usize;
+    let mut index = 0;
+
+    while index < bytes.len() {
+        let byte = bytes[index];
+        if in_string {
+            match byte {
+                b'{' => string_brace_depth += 1,
+                b'}' => string_brace_depth = string_brace_depth.saturating_sub(1),
+                b'"' if string_brace_depth == 0 => in_string = false,
+                _ => {}
+            }
+        } else {
+            match byte {
+                b'"' => in_string = true,
+                b'(' => paren_depth += 1,
+                b')' => paren_depth = paren_depth.saturating_sub(1),
+                b'=' if paren_depth == 0 => {
+                    if bytes.get(index + 1) == Some(&b'=') {
+                        index += 2;
+                        continue;
+                    }
+                    match index.checked_sub(1).map(|previous| bytes[previous]) {
+                        Some(b'!' | b'<' | b'>') => {}
+                        Some(b'+') => return Some((index - 1, "+=")),
+                        Some(b'-') => return Some((index - 1, "-=")),
+                        _ => return Some((index, "=")),
+                    }
+                }
+                _ => {}
+            }
+        }
+        index += 1;
+    }
+
+    None
 }
 
 /// Returns true if the leading `{` in `content` is NOT closed on the same line —
